@@ -786,7 +786,6 @@ IB__adapt__(PyObject* self, PyObject* obj)
     PyTypeObject *specification_base_class;
     int implements;
     int i;
-    int l;
 
     module = _get_module(Py_TYPE(self));
 
@@ -852,9 +851,16 @@ checked:
     PyTuple_SET_ITEM(args, 1, obj);
 
     adapter_hooks = _get_adapter_hooks(Py_TYPE(self));
-    l = PyList_GET_SIZE(adapter_hooks);
-    for (i = 0; i < l; i++) {
-        adapter = PyObject_CallObject(PyList_GET_ITEM(adapter_hooks, i), args);
+    /* ``for hook in adapter_hooks``: a hook may change the list, even
+       remove itself from it, so look at the current length every time and
+       keep the hook alive while it runs. */
+    for (i = 0; i < PyList_GET_SIZE(adapter_hooks); i++) {
+        PyObject* hook;
+
+        hook = PyList_GET_ITEM(adapter_hooks, i);
+        Py_INCREF(hook);
+        adapter = PyObject_CallObject(hook, args);
+        Py_DECREF(hook);
         if (adapter == NULL || adapter != Py_None) {
             Py_DECREF(args);
             return adapter;
